@@ -69,7 +69,7 @@ def classify(data):
 def hand_assemble(data, table):
     """assemble the described environment by hand from the registered functions (no factories)"""
     def params(kind, comp):
-        name = comp['name']
+        name = comp['name'].split(':')[-1]
         accepted = table[kind][name]
         kw = {}
         for k, v in comp.items():
@@ -100,7 +100,7 @@ def hand_assemble(data, table):
         return kw
 
     def fn(kind, comp):
-        return functools.partial(REG[kind][comp['name']], **params(kind, comp))
+        return functools.partial(REG[kind][comp['name'].split(':')[-1]], **params(kind, comp))
 
     reset = fn('reset', data['reset_function'])
     trans = functools.partial(REG['transition']['chain'], transition_functions=[fn('transition', c) for c in data['transition_functions']])
@@ -109,8 +109,8 @@ def hand_assemble(data, table):
     term = fn('terminating', data['terminating_function'])
     st = reset()
     ob = obsf(st)
-    sspace = StateSpace(st.grid.shape, [grid_object_registry.from_name(n) for n in data['state_space']['objects']], [Color[c] for c in data['state_space']['colors']])
-    ospace = ObservationSpace(ob.grid.shape, [grid_object_registry.from_name(n) for n in data['observation_space']['objects']],
+    sspace = StateSpace(st.grid.shape, [grid_object_registry.from_name(n.split(':')[-1]) for n in data['state_space']['objects']], [Color[c] for c in data['state_space']['colors']])
+    ospace = ObservationSpace(ob.grid.shape, [grid_object_registry.from_name(n.split(':')[-1]) for n in data['observation_space']['objects']],
                               [Color[c] for c in data['observation_space']['colors']])
     aspace = ActionSpace([Action[a] for a in data['action_space']]) if 'action_space' in data else ActionSpace(list(Action))
     return GridWorld(sspace, aspace, ospace, reset, trans, obsf, rew, term)
@@ -237,27 +237,9 @@ def run(ctx, replay=None):
             continue
         if not (same1 and same2 and data == keep):
             ctx.violation(f'{name}: building modified the input data', {'kind': 'build', 'file': name})
-        if name == 'coin_env.yaml':
-            # custom components: build / repeatability only (not part of the specification)
-            for s in range(nseeds):
-                dg = []
-                for e in (env1, env2):
-                    e.set_seed(s)
-                    e.reset()
-                    h = hashlib.sha256()
-                    r2 = random.Random(s)
-                    for t in range(nsteps):
-                        r, d = e.step(r2.choice(e.action_space.actions))
-                        h.update(json.dumps([proj.state_to_json(e.state), repr(r), d]).encode())
-                        if d:
-                            e.reset()
-                    dg.append(h.hexdigest())
-                if dg[0] != dg[1]:
-                    ctx.violation(f'{name}: two builds of the same data behave differently', {'kind': 'build', 'file': name})
-            continue
         cfg = config.spec_config(data)
         env3 = hand_assemble(data, table)
-        if env1.state_space.grid_shape.as_tuple != tuple(data['reset_function']['shape']):
+        if 'shape' in data['reset_function'] and env1.state_space.grid_shape.as_tuple != tuple(data['reset_function']['shape']):
             ctx.violation(f'{name}: state space shape differs from the configured shape', {'kind': 'build', 'file': name})
         (ymin, ymax), (xmin, xmax) = data['observation_function']['area']
         if env1.observation_space.grid_shape.as_tuple != (ymax - ymin + 1, xmax - xmin + 1):
@@ -316,7 +298,7 @@ def run(ctx, replay=None):
     ctx.add_part('shipped files: build / repeatability / hand assembly / described environment', files=len(all_files), seeds=nseeds, steps=nsteps,
                  step_records=len(srecs), observation_records=len(orecs), reset_records=len(rrecs))
     # ---- corruptions
-    base_files = [f for f in files if os.path.basename(f) in ('gv_keydoor.5x5.yaml', 'gv_dynamic_obstacles.7x7.yaml', 'gv_memory_four_rooms.7x7.yaml')] if ctx.quick else files
+    base_files = [f for f in files if os.path.basename(f) in ('gv_keydoor.5x5.yaml', 'gv_dynamic_obstacles.7x7.yaml', 'gv_memory_four_rooms.7x7.yaml', 'gv_crossing.7x7.yaml', 'gv_teleport.5x5.yaml', 'gv_memory.9x9.yaml', 'gv_nine_rooms.13x13.yaml', 'gv_empty.8x8.yaml')] if ctx.quick else files
     jobs = []
     for path in base_files:
         pf = os.path.join(ctx.work, 'cfg_' + os.path.basename(path) + '.json')
@@ -373,7 +355,7 @@ def run(ctx, replay=None):
     for kind, mod in (('reward', reward_fs), ('terminating', terminating_fs)):
         for name, f in REG[kind].items():
             if name in ('reduce',) or name not in table[kind]:
-                continue   # custom components (coin example) are not part of the specification
+                continue
             base_kw = {}
             for k in required[kind].get(name, set()):
                 base_kw[k] = {'object_type': grid_object_registry.from_name('Exit'),
